@@ -28,9 +28,16 @@ struct CaseIn {
     offset: u64,
     chunk: u64,
     exp_enabled: bool,
-    exp_lc_keep: bool,
+    /// lifecyclesToKeep entries: (ecu no, startTime, endTime)
+    to_keep: Vec<(u8, u64, u64)>,
+    /// set_lifecycle_read_handle is called with a table holding lifecycles 0..2 (start = end = 1000 * (g + 1))
+    handle: bool,
     from_ms: Option<u64>,
     to_ms: Option<u64>,
+}
+const N_LCS: u32 = 3;
+fn lc_time(g: u32) -> u64 {
+    1000 * (g as u64 + 1)
 }
 
 fn apid(n: u8) -> [u8; 4] {
@@ -41,6 +48,29 @@ fn ctid(n: u8) -> [u8; 4] {
 }
 fn s4(b: [u8; 4]) -> String {
     String::from_utf8(b.to_vec()).unwrap()
+}
+
+/// real value of msg.lifecycle for the case-level lifecycle number
+fn real_lc(lc: u32, ids: &Option<Vec<u32>>) -> u32 {
+    match ids {
+        None => lc,
+        Some(ids) => {
+            if lc < N_LCS {
+                ids[lc as usize]
+            } else {
+                3_000_000_000u32.wrapping_add(lc % 1000) // not in the table
+            }
+        }
+    }
+}
+/// the configured filters name lifecycles by case-level numbers
+fn realize_filter(f: &Value, ids: &Option<Vec<u32>>) -> Value {
+    let mut f = f.clone();
+    if let Some(l) = f["lifecycles"].as_array() {
+        let l2: Vec<u32> = l.iter().map(|x| real_lc(x.as_u64().unwrap() as u32, ids)).collect();
+        f["lifecycles"] = json!(l2);
+    }
+    f
 }
 
 fn build_msg(i: usize, s: &MsgSpec) -> DltMessage {
@@ -72,7 +102,8 @@ fn case_json(c: &CaseIn) -> Value {
         "filters": c.filters,
         "msgs": c.msgs.iter().map(|m| json!({"ecu": m.ecu, "ext": m.ext.map(|(a, c)| vec![a, c]), "lc": m.lc, "rt": m.rt})).collect::<Vec<_>>(),
         "budget": c.budget, "offset": c.offset, "chunk": c.chunk,
-        "export": {"enabled": c.exp_enabled, "lc_keep": c.exp_lc_keep, "from_ms": c.from_ms, "to_ms": c.to_ms}
+        "export": {"enabled": c.exp_enabled, "to_keep": c.to_keep.iter().map(|k| vec![k.0 as u64, k.1, k.2]).collect::<Vec<_>>(),
+                   "handle": c.handle, "from_ms": c.from_ms, "to_ms": c.to_ms}
     })
 }
 fn case_from_json(v: &Value) -> CaseIn {
@@ -93,7 +124,11 @@ fn case_from_json(v: &Value) -> CaseIn {
         offset: v["offset"].as_u64().unwrap_or(0),
         chunk: v["chunk"].as_u64().unwrap_or(1 << 30),
         exp_enabled: v["export"]["enabled"].as_bool().unwrap_or(true),
-        exp_lc_keep: v["export"]["lc_keep"].as_bool().unwrap_or(false),
+        to_keep: v["export"]["to_keep"]
+            .as_array()
+            .map(|a| a.iter().map(|k| (k[0].as_u64().unwrap() as u8, k[1].as_u64().unwrap(), k[2].as_u64().unwrap())).collect())
+            .unwrap_or_default(),
+        handle: v["export"]["handle"].as_bool().unwrap_or(false),
         from_ms: v["export"]["from_ms"].as_u64(),
         to_ms: v["export"]["to_ms"].as_u64(),
     }
@@ -159,18 +194,41 @@ fn run_set(filters_json: &[Value], msgs: &[DltMessage], offset: u64, chunk: u64)
 }
 
 struct ExportRun {
+    panicked: Option<String>,
     written: Vec<u32>,
     intact: bool,
     nexp: u64,
     nproc: u64,
+    exported: Vec<u32>, // real lifecycle ids
 }
 static FILE_NO: AtomicU64 = AtomicU64::new(0);
-fn run_export(dir: &std::path::Path, c: &CaseIn, msgs: &[DltMessage]) -> ExportRun {
+type Lcs = (adlt::lifecycle::LcsRType, Vec<u32>);
+/// a lifecycle table with N_LCS plain (non-resume) lifecycles; returns the read handle and their ids
+fn make_lcs() -> (Lcs, Box<dyn std::any::Any>) {
+    let (lcs_r, mut lcs_w) = evmap::Options::default()
+        .with_hasher(nohash_hasher::BuildNoHashHasher::<adlt::lifecycle::LifecycleId>::default())
+        .construct::<adlt::lifecycle::LifecycleId, adlt::lifecycle::LifecycleItem>();
+    let mut ids = vec![];
+    for g in 0..N_LCS {
+        let mut m0 = dltgen::plain_msg(0, g as u8, lc_time(g), 0);
+        let lc = adlt::lifecycle::Lifecycle::new(&mut m0);
+        ids.push(lc.id());
+        lcs_w.insert(lc.id(), lc);
+    }
+    lcs_w.refresh();
+    ((lcs_r, ids), Box::new(lcs_w))
+}
+fn run_export(dir: &std::path::Path, c: &CaseIn, filters_json: &[Value], msgs: &[DltMessage], lcs: Option<&Lcs>) -> ExportRun {
     let fname = dir.join(format!("exp_{}.dlt", FILE_NO.fetch_add(1, Ordering::Relaxed)));
     let fname_s = fname.to_str().unwrap().to_owned();
-    let mut cfg = json!({"name": "Export", "enabled": c.exp_enabled, "exportFileName": fname_s, "filters": c.filters});
-    if c.exp_lc_keep {
-        cfg["lifecyclesToKeep"] = json!([{"ecu": "ECU0", "startTime": 1, "endTime": 2}]);
+    let mut cfg = json!({"name": "Export", "enabled": c.exp_enabled, "exportFileName": fname_s, "filters": filters_json});
+    if !c.to_keep.is_empty() {
+        let l: Vec<Value> = c
+            .to_keep
+            .iter()
+            .map(|(e, a, b)| json!({"ecu": String::from_utf8(dltgen::ecu(*e).as_buf().to_vec()).unwrap(), "startTime": a, "endTime": b}))
+            .collect();
+        cfg["lifecyclesToKeep"] = json!(l);
     }
     if let Some(f) = c.from_ms {
         cfg["recordedTimeFromMs"] = json!(f);
@@ -179,18 +237,28 @@ fn run_export(dir: &std::path::Path, c: &CaseIn, msgs: &[DltMessage]) -> ExportR
         cfg["recordedTimeToMs"] = json!(t);
     }
     let mut plugin = ExportPlugin::from_json(cfg.as_object().unwrap()).expect("ExportPlugin::from_json");
-    for m in msgs {
-        let mut m2 = m.clone();
-        let fwd = plugin.process_msg(&mut m2);
-        assert!(fwd, "export plugin never drops from the stream");
+    if let Some((r, _)) = lcs {
+        plugin.set_lifecycle_read_handle(r);
     }
-    plugin.sync_all();
-    let (nexp, nproc) = {
+    let plugin = std::sync::Mutex::new(plugin);
+    let pr = catch_loc(std::panic::AssertUnwindSafe(|| {
+        let mut plugin = plugin.lock().unwrap();
+        for m in msgs {
+            let mut m2 = m.clone();
+            let fwd = plugin.process_msg(&mut m2);
+            assert!(fwd, "export plugin never drops from the stream");
+        }
+        plugin.sync_all();
         let st = plugin.state();
         let st = st.read().unwrap();
-        (st.value["infos"]["nrExportedMsgs"].as_u64().unwrap_or(u64::MAX), st.value["infos"]["nrProcessedMsgs"].as_u64().unwrap_or(u64::MAX))
-    };
+        let exported: Vec<u32> = st.value["infos"]["lifecyclesExported"].as_array().map(|a| a.iter().map(|x| x.as_u64().unwrap() as u32).collect()).unwrap_or_default();
+        (st.value["infos"]["nrExportedMsgs"].as_u64().unwrap_or(u64::MAX), st.value["infos"]["nrProcessedMsgs"].as_u64().unwrap_or(u64::MAX), exported)
+    }));
     drop(plugin);
+    let (nexp, nproc, exported, panicked) = match pr {
+        Ok((a, b, e)) => (a, b, e, None),
+        Err(e) => (0, 0, vec![], Some(e)),
+    };
     let mut written = vec![];
     let mut intact = true;
     if let Ok(bytes) = std::fs::read(&fname) {
@@ -214,7 +282,7 @@ fn run_export(dir: &std::path::Path, c: &CaseIn, msgs: &[DltMessage]) -> ExportR
             written.push(pos);
         }
     }
-    ExportRun { written, intact, nexp, nproc }
+    ExportRun { panicked, written, intact, nexp, nproc, exported }
 }
 
 // ---------------------------------------------------------------- one case
@@ -267,15 +335,28 @@ fn keep_rule(fs: &[FInfo], m: usize, with_event: bool) -> bool {
 
 fn record(sink: &mut Sink, tmp: &std::path::Path, c: CaseIn, extra_tags: &[&str]) {
     let n = c.msgs.len();
-    let msgs: Vec<DltMessage> = c.msgs.iter().enumerate().map(|(i, s)| build_msg(i, s)).collect();
-    let filters: Vec<Filter> = c.filters.iter().map(|j| Filter::from_json(&j.to_string()).expect("Filter::from_json")).collect();
-    let lc_filter_json = json!({"type": 1, "not": true, "lifecycles": [u32::MAX]});
-    let lc_filter = Filter::from_json(&lc_filter_json.to_string()).unwrap();
+    // lifecycle table (only when the plugin gets a read handle): the case-level lifecycles 0..2 get real ids
+    let lcs_all = if c.handle { Some(make_lcs()) } else { None };
+    let lcs: Option<&Lcs> = lcs_all.as_ref().map(|x| &x.0);
+    let ids: Option<Vec<u32>> = lcs.map(|l| l.1.clone());
+    let msgs: Vec<DltMessage> = c
+        .msgs
+        .iter()
+        .enumerate()
+        .map(|(i, s)| {
+            let mut m = build_msg(i, s);
+            m.lifecycle = real_lc(s.lc, &ids);
+            m
+        })
+        .collect();
+    let filters_json: Vec<Value> = c.filters.iter().map(|f| realize_filter(f, &ids)).collect();
+    let filters: Vec<Filter> = filters_json.iter().map(|j| Filter::from_json(&j.to_string()).expect("Filter::from_json")).collect();
 
     // truth table of the real single-filter matcher
     let infos: Vec<FInfo> =
         filters.iter().map(|f| FInfo { kind: kind_no(f.kind), enabled: f.enabled, row: msgs.iter().map(|m| f.matches(m)).collect() }).collect();
-    let lc_row: Vec<bool> = msgs.iter().map(|m| lc_filter.matches(m)).collect();
+    // keep_lifecycle for the plain lifecycles of make_lcs: same ecu as the MESSAGE and start/end inside the entry's range
+    let keeps = |e: &(u8, u64, u64), m: &MsgSpec| m.lc < N_LCS && e.0 == m.ecu && lc_time(m.lc) >= e.1 && lc_time(m.lc) <= e.2;
     let mut mispredicted = 0;
     for (fj, fi) in c.filters.iter().zip(infos.iter()) {
         for (i, m) in c.msgs.iter().enumerate() {
@@ -287,17 +368,17 @@ fn record(sink: &mut Sink, tmp: &std::path::Path, c: CaseIn, extra_tags: &[&str]
 
     // ---- run the real code
     let c2 = c.clone();
-    let (msgs2, filters2) = (msgs.clone(), filters.clone());
+    let (msgs2, filters2, filters_json2) = (msgs.clone(), filters.clone(), filters_json.clone());
     let tmp2 = tmp.to_path_buf();
     let run = catch_loc(std::panic::AssertUnwindSafe(move || {
         let st = run_stream(&filters2, &msgs2, c2.budget);
         let st_nobudget = if c2.budget.is_some() { run_stream(&filters2, &msgs2, None) } else { st.clone() };
-        let set = run_set(&c2.filters, &msgs2, c2.offset, c2.chunk);
-        let ex = run_export(&tmp2, &c2, &msgs2);
+        let set = run_set(&filters_json2, &msgs2, c2.offset, c2.chunk);
+        let ex = run_export(&tmp2, &c2, &filters_json2, &msgs2, lcs);
         // the same set without disabled and marker filters
         let rel: Vec<usize> = (0..filters2.len()).filter(|i| filters2[*i].enabled && filters2[*i].kind != FilterKind::Marker).collect();
         let rel_filters: Vec<Filter> = rel.iter().map(|i| filters2[*i].clone()).collect();
-        let rel_json: Vec<Value> = rel.iter().map(|i| c2.filters[*i].clone()).collect();
+        let rel_json: Vec<Value> = rel.iter().map(|i| filters_json2[*i].clone()).collect();
         let st_rel = run_stream(&rel_filters, &msgs2, None);
         let set_rel = run_set(&rel_json, &msgs2, c2.offset, c2.chunk);
         (st, st_nobudget, set, ex, st_rel, set_rel)
@@ -318,7 +399,15 @@ fn record(sink: &mut Sink, tmp: &std::path::Path, c: CaseIn, extra_tags: &[&str]
                 ]),
                 O::T(vec![O::b(set.active), O::T(set.decisions.iter().map(|b| O::b(*b)).collect())]),
                 O::T(vec![O::T(set.idxs.iter().map(|i| O::n(*i as u64)).collect()), O::n(set.last_processed as u64)]),
-                O::T(vec![O::T(ex.written.iter().map(|i| O::n(*i)).collect()), O::n(ex.nexp), O::n(ex.nproc)]),
+                if ex.panicked.is_some() {
+                    O::T(vec![O::L(1)])
+                } else {
+                    let canon = |id: &u32| match &ids {
+                        Some(v) => v.iter().position(|x| x == id).map(|p| p as u64).unwrap_or(9_999),
+                        None => *id as u64,
+                    };
+                    O::T(vec![O::T(ex.written.iter().map(|i| O::n(*i)).collect()), O::n(ex.nexp), O::n(ex.nproc), O::T(ex.exported.iter().map(|i| O::n(canon(i))).collect())])
+                },
             ]);
             // ---- oracle: the property text evaluated directly
             let kept: Vec<u32> = (0..n).filter(|m| keep_rule(&infos, *m, false)).map(|m| m as u32).collect();
@@ -377,25 +466,55 @@ fn record(sink: &mut Sink, tmp: &std::path::Path, c: CaseIn, extra_tags: &[&str]
                 if set_rel.decisions != set.decisions {
                     return fail("disabled_and_marker_irrelevant", format!("set: {:?} vs {:?} without them", set.decisions, set_rel.decisions));
                 }
-                // export: configured set (+ the lifecycle filter as a negative one) and the recorded-time window
-                let mut infos_x: Vec<&FInfo> = infos.iter().collect();
-                let lcf = FInfo { kind: 1, enabled: true, row: lc_row.clone() };
-                if c.exp_lc_keep {
-                    infos_x.push(&lcf);
+                // export: configured set, only lifecycles found to be kept so far (when lifecyclesToKeep is given),
+                // and the recorded-time window
+                let mut to_keep = c.to_keep.clone();
+                let mut checked: Vec<u32> = vec![];
+                let mut exported: Vec<u32> = vec![];
+                let mut want: Vec<u32> = vec![];
+                let mut unknown_lifecycle = false;
+                let mut cur_lcf: Option<Filter> = None;
+                let mut cur_for = usize::MAX;
+                if c.exp_enabled {
+                    for (i, m) in c.msgs.iter().enumerate() {
+                        if !to_keep.is_empty() && c.handle && !checked.contains(&m.lc) {
+                            if m.lc >= N_LCS {
+                                unknown_lifecycle = true; // the plugin panics: outside this property (C06: published before delivery)
+                                break;
+                            }
+                            if let Some(p) = to_keep.iter().position(|e| keeps(e, m)) {
+                                exported.push(m.lc);
+                                to_keep.remove(p);
+                            }
+                            checked.push(m.lc);
+                        }
+                        // the plugin's own lifecycle filter is one more NEGATIVE filter of the set: evaluated by the real matcher
+                        let lc_ok = c.to_keep.is_empty() || {
+                            if cur_lcf.is_none() || cur_for != exported.len() {
+                                let l: Vec<u32> = if exported.is_empty() { vec![u32::MAX] } else { exported.iter().map(|g| real_lc(*g, &ids)).collect() };
+                                cur_lcf = Some(Filter::from_json(&json!({"type": 1, "not": true, "lifecycles": l}).to_string()).unwrap());
+                                cur_for = exported.len();
+                            }
+                            !cur_lcf.as_ref().unwrap().matches(&msgs[i])
+                        };
+                        if keep_rule(&infos, i, true)
+                            && lc_ok
+                            && c.from_ms.map(|f| m.rt >= f * 1000).unwrap_or(true)
+                            && c.to_ms.map(|t| m.rt <= t * 1000).unwrap_or(true)
+                        {
+                            want.push(i as u32);
+                        }
+                    }
                 }
-                let fx: Vec<FInfo> = infos_x.iter().map(|f| FInfo { kind: f.kind, enabled: f.enabled, row: f.row.clone() }).collect();
-                let want: Vec<u32> = if c.exp_enabled {
-                    (0..n)
-                        .filter(|m| {
-                            keep_rule(&fx, *m, true)
-                                && c.from_ms.map(|f| c.msgs[*m].rt >= f * 1000).unwrap_or(true)
-                                && c.to_ms.map(|t| c.msgs[*m].rt <= t * 1000).unwrap_or(true)
-                        })
-                        .map(|m| m as u32)
-                        .collect()
-                } else {
-                    vec![]
-                };
+                if let Some(e) = &ex.panicked {
+                    if unknown_lifecycle && e.contains("unknown lifecycle") {
+                        return Verdict::Ok;
+                    }
+                    return fail("no_panic", e.clone());
+                }
+                if unknown_lifecycle {
+                    return Verdict::Ok; // implementation tolerated it; nothing to compare against
+                }
                 if !ex.intact {
                     return fail("export_messages_unchanged", "an exported message differs from the one processed".into());
                 }
@@ -414,19 +533,38 @@ fn record(sink: &mut Sink, tmp: &std::path::Path, c: CaseIn, extra_tags: &[&str]
     // ---- Coq term
     let frows: Vec<String> = infos.iter().map(|f| format!("({}, {}, {})", f.kind, cbool(f.enabled), clist(&f.row.iter().map(|b| cbool(*b)).collect::<Vec<_>>()))).collect();
     let on = |o: Option<u64>| copt(o.map(|x| x.to_string()));
+    let cb = |v: Vec<bool>| clist(&v.iter().map(|b| cbool(*b)).collect::<Vec<_>>());
     let input_coq = format!(
-        "(mkCase {} {} {} {} {} {} {} {} {} {})",
+        "(mkCase {} {} {} {} {} {} {} {} {} {} {} {} {} {})",
         clist(&frows),
         n,
         on(c.budget),
         c.offset,
         c.chunk,
         cbool(c.exp_enabled),
-        if c.exp_lc_keep { format!("(Some {})", clist(&lc_row.iter().map(|b| cbool(*b)).collect::<Vec<_>>())) } else { "None".into() },
         on(c.from_ms.map(|x| x * 1000)),
         on(c.to_ms.map(|x| x * 1000)),
-        cnums(&c.msgs.iter().map(|m| m.rt).collect::<Vec<_>>())
+        cnums(&c.msgs.iter().map(|m| m.rt).collect::<Vec<_>>()),
+        c.to_keep.len(),
+        cbool(c.handle),
+        cnums(&c.msgs.iter().map(|m| m.lc).collect::<Vec<_>>()),
+        cb(c.msgs.iter().map(|m| m.lc < N_LCS).collect()),
+        clist(&c.to_keep.iter().map(|e| cb(c.msgs.iter().map(|m| keeps(e, m)).collect())).collect::<Vec<_>>())
     );
+    // the meaning Exec/C12.v gives to the plugin's own lifecycle filters, checked against the real matcher
+    let mut lc_filter_bad = false;
+    if let Ok((_, _, _, ex, _, _)) = &run {
+        let mut lists: Vec<Vec<u32>> = vec![vec![u32::MAX]];
+        for k in 1..=ex.exported.len() {
+            lists.push(ex.exported[..k].to_vec());
+        }
+        for l in lists {
+            let f = Filter::from_json(&json!({"type": 1, "not": true, "lifecycles": l}).to_string()).unwrap();
+            if f.kind != FilterKind::Negative || !f.enabled || msgs.iter().any(|m| f.matches(m) != !l.contains(&m.lifecycle)) {
+                lc_filter_bad = true;
+            }
+        }
+    }
 
     // ---- tags / non-triviality
     let en = |k: u8| infos.iter().filter(|f| f.enabled && f.kind == k).count();
@@ -448,8 +586,19 @@ fn record(sink: &mut Sink, tmp: &std::path::Path, c: CaseIn, extra_tags: &[&str]
     if c.budget.is_some() {
         tags.push("hangup".into());
     }
-    if c.exp_lc_keep {
-        tags.push("export_lc_keep".into());
+    if !c.to_keep.is_empty() {
+        tags.push(if c.handle { "export_lifecycles_with_table" } else { "export_lifecycles_no_table" }.into());
+    }
+    if let Ok((_, _, _, ex, _, _)) = &run {
+        if !ex.exported.is_empty() {
+            tags.push(format!("export_lifecycles_found{}", ex.exported.len()));
+        }
+        if ex.panicked.is_some() {
+            tags.push("export_unknown_lifecycle_panic".into());
+        }
+    }
+    if lc_filter_bad {
+        tags.push("lc_filter_not_as_assumed".into());
     }
     if c.from_ms.is_some() || c.to_ms.is_some() {
         tags.push("export_window".into());
@@ -517,26 +666,60 @@ fn gen_case(rng: &mut Rng, big: bool) -> CaseIn {
     let nf = match rng.below(12) {
         0 => 0,
         1 => 1,
-        _ => rng.range(0, 6),
+        2..=4 => rng.range(0, 6),
+        _ => rng.range(2, 6),
     };
-    let filters: Vec<Value> = (0..nf).map(|_| gen_filter(rng)).collect();
+    let mut filters: Vec<Value> = (0..nf).map(|_| gen_filter(rng)).collect();
+    if nf >= 2 && rng.chance(3, 4) {
+        // structured: make sure an enabled positive and an enabled negative/event filter with a criterion take part
+        let i = rng.below(nf) as usize;
+        let j = (i + 1 + rng.below(nf - 1) as usize) % nf as usize;
+        {
+            filters[i]["type"] = json!(0);
+            filters[i]["enabled"] = json!(true);
+            filters[i]["ecu"] = json!(String::from_utf8(dltgen::ecu(rng.below(3) as u8).as_buf().to_vec()).unwrap());
+            filters[j]["type"] = json!(if rng.chance(1, 2) { 1 } else { 3 });
+            filters[j]["enabled"] = json!(true);
+            filters[j]["apid"] = json!(s4(apid(rng.below(3) as u8)));
+        }
+    }
     let nm = if rng.chance(1, 15) { 0 } else { rng.range(1, if big { 40 } else { 30 }) };
-    let msgs: Vec<MsgSpec> = (0..nm)
+    // export with lifecyclesToKeep: 1..3 entries (ecu, [start, end]) around the lifecycle times 1000, 2000, 3000
+    let to_keep: Vec<(u8, u64, u64)> = if rng.chance(1, 3) {
+        (0..rng.range(1, 3))
+            .map(|_| {
+                let a = *rng.pick(&[0u64, 1000, 1001, 2000, 2500]);
+                let b = a + *rng.pick(&[0u64, 999, 1000, 2000, 5000]);
+                (rng.below(3) as u8, a, b)
+            })
+            .collect()
+    } else {
+        vec![]
+    };
+    let handle = if to_keep.is_empty() { rng.chance(1, 6) } else { rng.chance(4, 5) };
+    let mut msgs: Vec<MsgSpec> = (0..nm)
         .map(|_| MsgSpec {
             ecu: rng.below(3) as u8,
             ext: if rng.chance(1, 5) { None } else { Some((rng.below(3) as u8, rng.below(2) as u8)) },
-            lc: if rng.chance(1, 25) { u32::MAX } else { rng.below(3) as u32 },
+            // with a table every lifecycle must be in it (else the plugin panics); lifecycles mostly come in runs
+            lc: if !handle && rng.chance(1, 25) { u32::MAX } else { rng.below(3) as u32 },
             rt: if rng.chance(1, 3) { rng.below(20) * 1000 } else { rng.below(20_000) },
         })
         .collect();
+    if rng.chance(1, 2) {
+        msgs.sort_by_key(|m| m.lc);
+    }
+    if handle && nm > 0 && rng.chance(1, 12) {
+        let k = rng.below(nm) as usize;
+        msgs[k].lc = 77; // a lifecycle the table does not know
+    }
     let budget = if rng.chance(1, 4) { Some(rng.below(nm + 2)) } else { None };
     let offset = if rng.chance(1, 2) { 0 } else { rng.below(1000) };
     let chunk = if rng.chance(1, 4) { rng.below(nm + 2) } else { 1 << 30 };
     let exp_enabled = !rng.chance(1, 12);
-    let exp_lc_keep = rng.chance(1, 8);
     let from_ms = if rng.chance(1, 3) { Some(rng.below(20)) } else { None };
     let to_ms = if rng.chance(1, 3) { Some(rng.below(22)) } else { None };
-    CaseIn { filters, msgs, budget, offset, chunk, exp_enabled, exp_lc_keep, from_ms, to_ms }
+    CaseIn { filters, msgs, budget, offset, chunk, exp_enabled, to_keep, handle, from_ms, to_ms }
 }
 
 fn simple_msgs() -> Vec<MsgSpec> {
@@ -558,7 +741,8 @@ fn corpus(sink: &mut Sink, tmp: &std::path::Path) {
         offset: 0,
         chunk: 1 << 30,
         exp_enabled: true,
-        exp_lc_keep: false,
+        to_keep: vec![],
+        handle: false,
         from_ms: None,
         to_ms: None,
     };
@@ -587,7 +771,29 @@ fn corpus(sink: &mut Sink, tmp: &std::path::Path) {
     }
     // export: lifecyclesToKeep filter vetoes everything but lifecycle u32::MAX; time window boundaries inclusive
     let mut c = base(vec![json!({"type":0,"ecu":"EC00"})]);
-    c.exp_lc_keep = true;
+    c.to_keep = vec![(0, 1, 2)];
+    record(sink, tmp, c, &["corpus"]);
+    // ... with a lifecycle table: lifecycles 0 (ecu 0) and 2 (ecu 2) are found, 1 is not; configured filters still apply
+    let mut c = base(vec![json!({"type":1,"apid":"APP1"})]);
+    c.to_keep = vec![(2, 3000, 3000), (1, 0, 1999), (0, 0, 1000)];
+    c.handle = true;
+    c.msgs.pop(); // the message without a known lifecycle
+    record(sink, tmp, c, &["corpus"]);
+    // first message of a lifecycle has a different ecu than the entry: the lifecycle is marked checked and never kept
+    let mut c = base(vec![]);
+    c.to_keep = vec![(0, 0, 5000)];
+    c.handle = true;
+    c.msgs = vec![
+        MsgSpec { ecu: 1, ext: None, lc: 0, rt: 1 },
+        MsgSpec { ecu: 0, ext: None, lc: 0, rt: 2 },
+        MsgSpec { ecu: 0, ext: None, lc: 1, rt: 3 },
+        MsgSpec { ecu: 0, ext: None, lc: 2, rt: 4 },
+    ];
+    record(sink, tmp, c, &["corpus"]);
+    // unknown lifecycle with a table: the plugin panics (outside this property)
+    let mut c = base(vec![]);
+    c.to_keep = vec![(0, 0, 5000)];
+    c.handle = true;
     record(sink, tmp, c, &["corpus"]);
     let mut c = base(vec![]);
     c.from_ms = Some(2);
@@ -641,7 +847,8 @@ fn exhaustive(sink: &mut Sink, tmp: &std::path::Path, max: usize) {
                 offset: 0,
                 chunk: 1 << 30,
                 exp_enabled: true,
-                exp_lc_keep: false,
+                to_keep: vec![],
+        handle: false,
                 from_ms: None,
                 to_ms: None,
             };
